@@ -8,6 +8,8 @@ import TsRsVerif.Model.Text
 import TsRsVerif.Model.Path
 import TsRsVerif.Model.Case
 import TsRsVerif.Model.Export
+import TsRsVerif.Driver.ProgIO
+import TsRsVerif.Model.TsNorm
 open Lean TsRs
 
 def gs (j : Json) (k : String) : Str :=
@@ -230,6 +232,45 @@ def handle (ops : CharOps) (j : Json) : Json :=
     | some s => Json.mkObj [("ok", S s)]
     | none => Json.mkObj [("not_wf", Json.bool true)]
   | "hist" => runHist j
+  | "oracle_member" =>
+    -- does the JSON text `json` inhabit the type `ty` under the declarations `decls` (all given as TypeScript text)?
+    let decls : Decls := (gsl j "decls").filterMap fun d => (TsParse.parseDecl d).map fun (n, ps, body) => (n, ps, TsParse.bindParams ps body)
+    let nDecl := (gsl j "decls").length
+    match TsParse.parseType (gs j "ty"), Json.parse (String.ofList (gs j "json")) with
+    | some t, .ok v =>
+      Json.mkObj [("ok", Json.bool (Ts.memberb decls 60 t (ProgIO.ofLean v))), ("decls_parsed", Json.num decls.length), ("decls_given", Json.num nDecl)]
+    | none, _ => Json.mkObj [("unparsed_type", S (gs j "ty"))]
+    | _, .error e => Json.mkObj [("bad_value", Json.str e)]
+  | "oracle_c07" =>
+    -- generic declaration vs concrete declaration of one instantiation
+    let others : Decls := (gsl j "decls").filterMap fun d => (TsParse.parseDecl d).map fun (n, ps, body) => (n, ps, TsParse.bindParams ps body)
+    match TsParse.parseDecl (gs j "decl"), TsParse.parseDecl (gs j "decl_concrete"), TsParse.parseType (gs j "name") with
+    | some (n, ps, body), some (n', ps', cbody), some nameT =>
+      let body' := TsParse.bindParams ps body
+      let declared := others.map (·.1)
+      let isScoped := (Ts.freeRefs body').all fun r => r ∈ ps || r ∈ declared || r = n
+      let argsOk := match nameT with
+        | .ref m args => m = n && args.length = ps.length
+        | _ => false
+      let inst := match nameT with
+        | .ref _ args => Ts.subst (ps.zip args) body'
+        | _ => body'
+      -- syntactic normal forms first; otherwise unfold every declared name on both sides (inlined vs referenced presentations)
+      let allD : Decls := (n, ps, body') :: others
+      let same := Ts.beq (Ts.norm others [] 40 inst) (Ts.norm others [] 40 cbody)
+        || Ts.beq (Ts.norm allD (allD.map (·.1)) 12 inst) (Ts.norm allD (allD.map (·.1)) 12 cbody)
+      Json.mkObj [("ok", Json.bool (isScoped && argsOk && ps' == [] && n == n')), ("params", Json.arr (ps.map S).toArray), ("scoped", Json.bool isScoped),
+        ("name_is_ident_applied", Json.bool argsOk), ("instantiation_equals_concrete", Json.bool same)]
+    | _, _, _ => Json.mkObj [("unparsed", Json.bool true)]
+  | "oracle_c14" =>
+    -- two declarations must denote the same type once references to `unfold` are replaced by their bodies
+    let D : Decls := (gsl j "decls").filterMap fun d => (TsParse.parseDecl d).map fun (n, ps, body) => (n, ps, TsParse.bindParams ps body)
+    match TsParse.parseDecl (gs j "a"), TsParse.parseDecl (gs j "b") with
+    | some (_, psa, ba), some (_, psb, bb) =>
+      let na := Ts.norm D (gsl j "unfold") 40 (TsParse.bindParams psa ba)
+      let nb := Ts.norm D (gsl j "unfold") 40 (TsParse.bindParams psb bb)
+      Json.mkObj [("ok", Json.bool (Ts.beq na nb))]
+    | _, _ => Json.mkObj [("unparsed", Json.bool true)]
   | "field_name" => Json.mkObj [("ok", S (Case.rawNameToTsField ops (gs j "s")))]
   | "ts_ident" => Json.mkObj [("ok", S (Case.toTsIdent (gs j "s")))]
   | "absolute" => resStr (Path.absolute (gs j "cwd") (gs j "p"))
@@ -270,6 +311,12 @@ partial def loop (h : IO.FS.Stream) (out : IO.FS.Stream) (st : DState) : IO Unit
       let u := parseUniverse j
       out.putStrLn (Json.mkObj [("ok", Json.num u.length)]).compress
       loop h out { st with uni := u }
+    else if op = "prog" then
+      let env : Env := (ProgIO.arr j "items").map ProgIO.item
+      let cfg : Cfg := { ops := opsOf st.chars }
+      let outs := (ProgIO.arr j "probes").map (ProgIO.probe cfg env (gb j "esm") (gs j "cwd") (gs j "out_dir"))
+      out.putStrLn (Json.mkObj [("probes", Json.arr outs.toArray)]).compress
+      loop h out st
     else if op = "uhist" then
       out.putStrLn (runUHist st.uni j).compress
       loop h out st
